@@ -15,6 +15,7 @@ func concurrentDriver(args []string) (*Summary, error) {
 	mode := fl.fs.String("mode", "schedule", "schedule: replay the gate schedule of every case; race: run every topology ungated")
 	g := fl.fs.Int("g", 4, "goroutines per topology member (race mode)")
 	reps := fl.fs.Int("reps", 5, "repetitions per topology (race mode)")
+	rotate := fl.fs.Int("rotate", 0, "race mode: index of the topology to start with")
 	fl.fs.Parse(args)
 	w, err := abs.NewWriter(*fl.out)
 	if err != nil {
@@ -26,9 +27,30 @@ func concurrentDriver(args []string) (*Summary, error) {
 	}
 	defer inputs.Close()
 	s := &Summary{Counters: map[string]int{}}
-	conc.InitReferences()
+	if *mode != "race" {
+		conc.InitReferences()
+	}
+	// race mode starts at the topology numbered `rotate` (several fresh processes give several topologies the chance to
+	// be the first concurrent use of whatever the library initialises lazily)
+	var lines [][]byte
+	if err := abs.ReadLines(*fl.in, func(line []byte) error { lines = append(lines, append([]byte(nil), line...)); return nil }); err != nil {
+		return nil, err
+	}
 	n := 0
-	err = abs.ReadLines(*fl.in, func(line []byte) error {
+	each := func(f func(line []byte) error) error {
+		for k := range lines {
+			i := k
+			if *mode == "race" && len(lines) > 0 {
+				i = (k + *rotate) % len(lines)
+			}
+			n = i
+			if err := f(lines[i]); err != nil {
+				return err
+			}
+		}
+		return nil
+	}
+	err = each(func(line []byte) error {
 		var c conc.Case
 		if err := json.Unmarshal(line, &c); err != nil {
 			return fmt.Errorf("bad case: %v", err)
